@@ -220,7 +220,7 @@ func cmdCheck(args []string) int {
 	// functions under contract for this property
 	var keys []string
 	for k, fc := range v.specs.Funcs {
-		if hasProp(fc.Props, prop) && !fc.Trusted && !fc.NoVerify {
+		if hasProp(fc.Props, prop) && !fc.Trusted && (!fc.NoVerify || len(fc.Flows) > 0) {
 			keys = append(keys, k)
 		}
 	}
@@ -275,6 +275,17 @@ func cmdCheck(args []string) int {
 				}
 				obls = append(obls, o)
 				allQ = append(allQ, o.Queries...)
+			}
+		}
+	}
+	for fld, sf := range v.specs.Secrets {
+		if !hasProp(sf.Props, prop) || *only != "" {
+			continue
+		}
+		for _, r := range sf.Readers {
+			fc := v.specs.Funcs[r]
+			if fc == nil || !hasProp(fc.Props, prop) || len(fc.Flows) == 0 {
+				undecided = append(undecided, fmt.Sprintf("func=%s reason=listed as reader of secret %s but has no flows clause for %s", r, fld, prop))
 			}
 		}
 	}
@@ -671,7 +682,12 @@ func writeReplay(v *Verifier, path, prop string, o *Obl, q *Query, where string)
 		"goal":          q.Goal,
 		"smt_file":      q.File,
 	}
-	found := tryReplay(v, o, q, rp)
+	found := false
+	if o.Kind == "flow" || o.Kind == "readers" {
+		rp["note"] = "information-flow obligation decided syntactically on the SSA of the function; the clause text names the offending use; no input is involved"
+	} else {
+		found = tryReplay(v, o, q, rp)
+	}
 	rp["failing_input_found"] = found
 	b, _ := json.MarshalIndent(rp, "", " ")
 	os.WriteFile(path, b, 0o644)
